@@ -174,9 +174,13 @@ struct ApplyMagnitudeImpl<Mag, ApplyAs::RATIONAL_MULTIPLY, T, true> {
     }
 
     static constexpr bool would_truncate(const T &x) {
-        constexpr auto mag_value_result = get_value_result<T>(denominator(Mag{}));
-        return TruncationChecker<T, mag_value_result.outcome == MagRepresentationOutcome::OK>::
-            would_truncate(x, mag_value_result.value);
+        // Test divisibility in the promoted type, which is where the conversion itself divides.  A
+        // denominator that fits in `P` but not in `T` (e.g., 128 for `int8_t`) still divides
+        // `std::numeric_limits<T>::lowest()` evenly.
+        using P = PromotedType<T>;
+        constexpr auto mag_value_result = get_value_result<P>(denominator(Mag{}));
+        return TruncationChecker<P, mag_value_result.outcome == MagRepresentationOutcome::OK>::
+            would_truncate(static_cast<P>(x), mag_value_result.value);
     }
 };
 
